@@ -1,10 +1,8 @@
 SPECIFICATION RSpec
 CONSTANT FIXES <- AllFixes
-CONSTANT ENV <- NoEnv
+CONSTANT ENV <- CrashFault
+INVARIANT Inv_Single
 INVARIANT Inv_C05
 INVARIANT Inv_C06
-INVARIANT Inv_C07
-INVARIANT Inv_C12
-INVARIANT Inv_Struct
 INVARIANT Report
 CHECK_DEADLOCK FALSE
